@@ -94,7 +94,8 @@ type idxProver struct {
 	isValid  *ssa.Function
 	lenLBs   []ssa.Value // values n with X.length >= n (post-condition of typedArrayCreate)
 	budget   int
-	canon    map[ssa.Value]ssa.Value
+	canon2   map[interface{}]ssa.Value
+	fOffset  *types.Var
 	extra    []ineq // assumptions (used for the self-check of relToIdx)
 }
 
@@ -122,15 +123,20 @@ func (a *idxProver) lin(v ssa.Value) lin {
 		}
 		// length of another typed array: immutable after construction, so every load is the same number
 		if ld, ok := v.(*ssa.UnOp); ok && ld.Op == token.MUL {
-			if fa, ok := ld.X.(*ssa.FieldAddr); ok && core.FieldOf(fa) == a.fLength {
-				base := core.Origin(fa.X)
-				if a.canon == nil {
-					a.canon = map[ssa.Value]ssa.Value{}
+			if fa, ok := ld.X.(*ssa.FieldAddr); ok && (core.FieldOf(fa) == a.fLength || (a.fOffset != nil && core.FieldOf(fa) == a.fOffset)) {
+				type ck struct {
+					base ssa.Value
+					f    *types.Var
 				}
-				if c, ok := a.canon[base]; ok {
+				base := core.Origin(fa.X)
+				if a.canon2 == nil {
+					a.canon2 = map[interface{}]ssa.Value{}
+				}
+				k := ck{base, core.FieldOf(fa)}
+				if c, ok := a.canon2[k]; ok {
 					v = c
 				} else {
-					a.canon[base] = v
+					a.canon2[k] = v
 				}
 			}
 		}
@@ -646,20 +652,18 @@ func runIdxBound(p *core.Prog) *core.Result {
 	})
 	seq := map[string]int{}
 	inScope := 0
-	for _, s := range sites {
-		ld := s.call.Call.Value.(*ssa.UnOp)
-		X := core.Origin(ld.X.(*ssa.FieldAddr).X)
-		base := fmt.Sprintf("%s:%s index", core.FuncName(s.fn), s.call.Call.Method.Name())
+	// decide one access: X is the typed array, idxVal the element index including X.offset
+	decide := func(fn *ssa.Function, at ssa.Instruction, X ssa.Value, idxVal ssa.Value, what string) {
+		base := fmt.Sprintf("%s:%s", core.FuncName(fn), what)
 		seq[base]++
 		key := base
 		if seq[base] > 1 {
 			key = fmt.Sprintf("%s#%d", base, seq[base])
 		}
-		pos := p.Pos(s.call.Pos())
+		pos := p.Pos(at.Pos())
 		a := &idxProver{p: p, X: X, fLength: fLen, relToIdx: relToIdx, passthru: passthru, isValid: isValid, lenLBs: requestedLen(X), budget: 20000}
 		a.lenAtom = ssa.NewConst(constant.MakeInt64(0), types.Typ[types.Int]) // unique placeholder atom
-		// the index minus X.offset
-		idx := a.lin(s.call.Call.Args[s.arg])
+		idx := a.lin(idxVal)
 		var offAtom ssa.Value
 		for t := range idx.terms {
 			if l, ok := t.(*ssa.UnOp); ok && l.Op == token.MUL {
@@ -670,15 +674,15 @@ func runIdxBound(p *core.Prog) *core.Result {
 		}
 		if offAtom == nil || idx.terms[offAtom] != 1 {
 			res.Inform(key, pos, "index is not of the form X.offset + k for the accessed array X (precomputed absolute offset, or a newly created array with offset 0): not decided by this rule")
-			continue
+			return
 		}
 		delete(idx.terms, offAtom)
 		inScope++
-		if why, ok := idxBoundAudited[core.FuncName(s.fn)+"|"+p.SourceName(X)]; ok {
+		if why, ok := idxBoundAudited[core.FuncName(fn)+"|"+p.SourceName(X)]; ok {
 			res.OK(key, pos, "audited: "+why)
-			continue
+			return
 		}
-		conds := core.ControllingConds(s.call.Block())
+		conds := core.ControllingConds(at.Block())
 		upper := idx.clone()
 		upper.terms[a.lenAtom]--
 		upper.c++
@@ -690,11 +694,254 @@ func runIdxBound(p *core.Prog) *core.Result {
 		case okU && okL:
 			res.OK(key, pos, "0 <= k <= length-1 follows from the definitions and the controlling conditions")
 		case !okU:
-			res.Bad(key, pos, "k <= length-1 does not follow from the index's defining expressions and the conditions controlling this call: the accessor computes an address from the index without a bounds check, so k == length reads or writes one element past the view (past the ArrayBuffer for a view that ends at its end)")
+			res.Bad(key, pos, "k <= length-1 does not follow from the index's defining expressions and the conditions controlling this access: the address is computed from the index without a (useful) bounds check, so k == length touches one element past the view (for a view that ends at the end of its buffer: past the ArrayBuffer, or a Go index-out-of-range panic when the element's address is taken from the byte slice)")
 		default:
-			res.Bad(key, pos, "k >= 0 does not follow from the index's defining expressions and the conditions controlling this call: a negative k addresses memory before the view")
+			res.Bad(key, pos, "k >= 0 does not follow from the index's defining expressions and the conditions controlling this access: a negative k addresses memory before the view")
 		}
 	}
+	for _, s := range sites {
+		ld := s.call.Call.Value.(*ssa.UnOp)
+		X := core.Origin(ld.X.(*ssa.FieldAddr).X)
+		decide(s.fn, s.call, X, s.call.Call.Args[s.arg], s.call.Call.Method.Name()+" index")
+	}
+	// &X.viewedArrayBuf.data[(X.offset + k) * X.elemSize]: the address of an element taken from the byte
+	// slice (Go bounds-checks the index against len(data), which an empty view at the end of its
+	// buffer already reaches)
+	fData, err := p.Field(core.GojaPath, "arrayBufferObject", "data")
+	if err != nil {
+		return res.Fail(err)
+	}
+	fVAB, err := p.Field(core.GojaPath, "typedArrayObject", "viewedArrayBuf")
+	if err != nil {
+		return res.Fail(err)
+	}
+	fElem, err := p.Field(core.GojaPath, "typedArrayObject", "elemSize")
+	if err != nil {
+		return res.Fail(err)
+	}
+	loadOf := func(v ssa.Value, f *types.Var) ssa.Value { // v == *(&B.f) -> B
+		l, ok := core.Origin(v).(*ssa.UnOp)
+		if !ok || l.Op != token.MUL {
+			return nil
+		}
+		fa, ok := l.X.(*ssa.FieldAddr)
+		if !ok || core.FieldOf(fa) != f {
+			return nil
+		}
+		return core.Origin(fa.X)
+	}
+	nAddr := 0
+	for _, fn := range p.Funcs {
+		if !p.InModule(fn) || fn.Blocks == nil {
+			continue
+		}
+		core.AllInstrs(fn, func(in ssa.Instruction) {
+			ia, ok := in.(*ssa.IndexAddr)
+			if !ok {
+				return
+			}
+			buf := loadOf(ia.X, fData)
+			if buf == nil {
+				return
+			}
+			X := loadOf(buf, fVAB)
+			if X == nil {
+				return
+			}
+			mul, ok := stripConv(ia.Index).(*ssa.BinOp)
+			if !ok || mul.Op != token.MUL {
+				return
+			}
+			var elemIdx ssa.Value
+			switch {
+			case loadOf(mul.Y, fElem) == X:
+				elemIdx = mul.X
+			case loadOf(mul.X, fElem) == X:
+				elemIdx = mul.Y
+			default:
+				return
+			}
+			nAddr++
+			decide(fn, in, X, elemIdx, "&data[(offset+k)*elemSize]")
+		})
+	}
+	res.Count("element addresses taken from the byte slice", nAddr)
+
+	// copy(dst, src) where dst is a slice of a view's buffer: the bytes written must stay inside the
+	// view. With an explicit upper bound: high <= offset+length. With an open-ended destination the
+	// number of source elements is added to the start: k + (b - a) <= length.
+	fCtor, err := p.Field(core.GojaPath, "typedArrayObject", "defaultCtor")
+	if err != nil {
+		return res.Fail(err)
+	}
+	// elemIndexOf: v == sum * X.elemSize  ->  (sum, X)
+	elemIndexOf := func(v ssa.Value) (ssa.Value, ssa.Value) {
+		if v == nil {
+			return nil, nil
+		}
+		mul, ok := stripConv(v).(*ssa.BinOp)
+		if !ok || mul.Op != token.MUL {
+			return nil, nil
+		}
+		if X := loadOf(mul.Y, fElem); X != nil {
+			return mul.X, X
+		}
+		if X := loadOf(mul.X, fElem); X != nil {
+			return mul.Y, X
+		}
+		return nil, nil
+	}
+	viewOfData := func(v ssa.Value) ssa.Value { // v == X.viewedArrayBuf.data -> X
+		buf := loadOf(v, fData)
+		if buf == nil {
+			return nil
+		}
+		return loadOf(buf, fVAB)
+	}
+	nCopy := 0
+	for _, fn := range p.Funcs {
+		if !p.InModule(fn) || fn.Blocks == nil {
+			continue
+		}
+		core.AllInstrs(fn, func(in ssa.Instruction) {
+			c, ok := in.(*ssa.Call)
+			if !ok {
+				return
+			}
+			if b, ok := c.Call.Value.(*ssa.Builtin); !ok || b.Name() != "copy" || len(c.Call.Args) != 2 {
+				return
+			}
+			dst, ok := core.Origin(c.Call.Args[0]).(*ssa.Slice)
+			if !ok {
+				return
+			}
+			Xd := viewOfData(dst.X)
+			if Xd == nil {
+				return
+			}
+			nCopy++
+			base := core.FuncName(fn) + ":copy into the view's buffer"
+			seq[base]++
+			key := base
+			if seq[base] > 1 {
+				key = fmt.Sprintf("%s#%d", base, seq[base])
+			}
+			pos := p.Pos(c.Pos())
+			a := &idxProver{p: p, X: Xd, fLength: fLen, fOffset: fOff, relToIdx: relToIdx, passthru: passthru, isValid: isValid, lenLBs: requestedLen(Xd), budget: 20000}
+			a.lenAtom = ssa.NewConst(constant.MakeInt64(0), types.Typ[types.Int])
+			conds := core.ControllingConds(c.Block())
+			offOf := func(l lin, X ssa.Value) (lin, bool) { // remove X.offset from l
+				for t := range l.terms {
+					if lo, ok := t.(*ssa.UnOp); ok && lo.Op == token.MUL {
+						if fa, ok := lo.X.(*ssa.FieldAddr); ok && core.FieldOf(fa) == fOff && core.Origin(fa.X) == X && l.terms[t] == 1 {
+							n := l.clone()
+							delete(n.terms, t)
+							return n, true
+						}
+					}
+				}
+				return l, false
+			}
+			sameElemSize := func(X2 ssa.Value) bool {
+				if X2 == Xd {
+					return true
+				}
+				for _, cp := range conds {
+					b, ok := cp.Cond.(*ssa.BinOp)
+					if !ok || b.Op != token.EQL || !cp.Pol {
+						continue
+					}
+					x, y := loadOf(b.X, fCtor), loadOf(b.Y, fCtor)
+					if (x == Xd && y == X2) || (x == X2 && y == Xd) {
+						return true
+					}
+				}
+				return false
+			}
+			lowSum, lowX := elemIndexOf(dst.Low)
+			if dst.Low != nil && (lowSum == nil || lowX != Xd) {
+				res.Unknown(key, pos, "the destination's start is not of the form (X.offset + k) * X.elemSize")
+				return
+			}
+			// elemLin: v as a number of elements, when v is a sum of products with element sizes equal to Xd's
+			var elemLin func(v ssa.Value, d int) (lin, bool)
+			elemLin = func(v ssa.Value, d int) (lin, bool) {
+				v = stripConv(v)
+				if bo, ok := v.(*ssa.BinOp); ok && d < 6 {
+					switch bo.Op {
+					case token.ADD:
+						l, ok1 := elemLin(bo.X, d+1)
+						r, ok2 := elemLin(bo.Y, d+1)
+						if ok1 && ok2 {
+							return l.addScaled(r, 1), true
+						}
+					case token.MUL:
+						if X2 := loadOf(bo.Y, fElem); X2 != nil && sameElemSize(X2) {
+							return a.lin(bo.X), true
+						}
+						if X2 := loadOf(bo.X, fElem); X2 != nil && sameElemSize(X2) {
+							return a.lin(bo.Y), true
+						}
+					}
+				}
+				return lin{}, false
+			}
+			if dst.High != nil {
+				hl0, okh := elemLin(dst.High, 0)
+				if !okh {
+					res.Unknown(key, pos, "the destination's end is not a sum of (elements * X.elemSize) terms")
+					return
+				}
+				hl, ok := offOf(hl0, Xd)
+				if !ok {
+					res.Unknown(key, pos, "the destination's end does not start from X.offset")
+					return
+				}
+				e := hl.clone()
+				e.terms[a.lenAtom]--
+				if a.prove(e, conds, 7) {
+					res.OK(key, pos, "the destination ends at or before offset+length")
+				} else {
+					res.Bad(key, pos, "the destination slice can end beyond the view (offset+length): elements of the same ArrayBuffer that do not belong to this typed array are overwritten")
+				}
+				return
+			}
+			// open-ended destination: bounded only by the number of source bytes
+			src, ok := core.Origin(c.Call.Args[1]).(*ssa.Slice)
+			var ll lin
+			if dst.Low != nil {
+				l0, ok2 := offOf(a.lin(lowSum), Xd)
+				if !ok2 {
+					res.Unknown(key, pos, "the destination's start does not start from X.offset")
+					return
+				}
+				ll = l0
+			} else {
+				ll = lin{terms: map[ssa.Value]int64{}}
+			}
+			if !ok || src.High == nil {
+				res.Bad(key, pos, "open-ended destination slice of a view's buffer with a source of unknown length: the copy is bounded only by the end of the ArrayBuffer, not by the end of the view")
+				return
+			}
+			as, aX := elemIndexOf(src.Low)
+			bs, bX := elemIndexOf(src.High)
+			if bs == nil || (src.Low != nil && as == nil) || !sameElemSize(bX) || (aX != nil && aX != bX) {
+				res.Bad(key, pos, "open-ended destination slice of a view's buffer and the number of source elements cannot be related to the destination view (different or unknown element sizes): the copy is bounded only by the end of the ArrayBuffer")
+				return
+			}
+			e := ll.addScaled(a.lin(bs), 1)
+			if as != nil {
+				e = e.addScaled(a.lin(as), -1)
+			}
+			e.terms[a.lenAtom]--
+			if a.prove(e, conds, 7) {
+				res.OK(key, pos, "start + number of source elements <= length")
+			} else {
+				res.Bad(key, pos, "the destination slice is open-ended and start + (number of source elements) <= length does not follow from the definitions and controlling conditions: the copy runs past the end of the view into the rest of the ArrayBuffer (copyWithin(4, 0) on a view that ends before its buffer overwrites the neighbouring elements)")
+			}
+		})
+	}
+	res.Count("copies into a view's buffer", nCopy)
 	// typedArray.export(offset, length) builds unsafe.Slice(ptr(offset), length): the arguments are
 	// the view's own offset and length, in elements (ptr scales by the element size itself)
 	for _, fn := range p.Funcs {
